@@ -745,7 +745,16 @@ def stale_id_rule(repo, rid):
     m = repo.module(METHOD)
     RENUMBER = {'replace_id', 'remove_line', 'add_line_before'}
     INDEXING = RENUMBER | {'set_line', 'get_proof_item', 'find_goal', 'apply_tactic'}
-    for f in m.all_funcs:
+    from ..inline import inlined
+
+    def closes(h):
+        # a helper that removes / replaces a line it is handed: read in place at its call (the body of a closing walk moved into a method)
+        return any(isinstance(c, ast.Call) and call_attr(c) in ('replace_id', 'remove_line') for c in ast.walk(h.node)) and \
+            not any(isinstance(l, (ast.For, ast.While)) for l in ast.walk(h.node))
+    for f0 in m.all_funcs:
+        if not any(isinstance(l, ast.For) for l in ast.walk(f0.node)):
+            continue
+        f = inlined(f0, closes)[0]
         loops = [l for l in ast.walk(f.node) if isinstance(l, ast.For) and isinstance(l.target, ast.Name)]
         if not loops:
             continue
